@@ -731,52 +731,93 @@ def r01_11(duke, R, S):
 
 # ------------------------------------------------------------------------------------ R01.12
 def r01_12(duke, R, S):
-    """Bytecode offsets that may equal code_length (exclusive range ends) versus offsets of instructions."""
+    """Bytecode offsets that may equal code_length (exclusive range ends) versus offsets of instructions.
+    Shape-independent: every label-creating method of class_reader::labels::Labels is partially evaluated (private helpers of the impl
+    inlined) at pc = code_length - 1, code_length, code_length + 1 and classified by where it returns Err."""
     R.rule("R01.12", "offsets the JVMS defines as exclusive range ends (exception_table.end_pc 4.7.3; start_pc + length of LocalVariableTable, "
-                     "LocalVariableTypeTable and localvar type-annotation targets 4.7.13/14/20.1) are turned into labels with the check "
-                     "`pc <= code_length`; offsets that must denote an instruction (start_pc, handler_pc, line numbers, frame offsets, branch "
-                     "targets) with `pc < code_length`; the two Labels checks compare against code_length with exactly these operators")
+                     "LocalVariableTypeTable and localvar type-annotation targets 4.7.13/14/20.1) become labels through a method that accepts "
+                     "pc <= code_length; offsets that must denote an instruction (start_pc, handler_pc, branch targets, frame offsets) through "
+                     "one that accepts only pc < code_length; get_or_create_range(start, length) accepts start + length == code_length, rejects "
+                     "start == code_length and start + length > code_length")
     lab = {b["name"]: b for b in duke.bodies if (b.get("impl_ty") or "").endswith("class_reader::labels::Labels") and b.get("name")}
-    for name, op_reject in (("get_or_create", ">="), ("create", ">="), ("get_or_create_check_exclusive", ">")):
-        b = lab.get(name)
-        if not R.anchor("R01.12", "fn Labels::" + name, b):
+    if not R.anchor("R01.12", "impl Labels", len(lab) >= 4):
+        return
+    inline = {b["key"]: b for b in lab.values()}
+    CL = 10
+
+    def hooks():
+        def checked_add(args):
+            if len(args) == 2 and args[0][0] == "i" and args[1][0] == "i":
+                v = args[0][1] + args[1][1]
+                return T.V("Some", ("i", v)) if v <= 0xffff else T.V("None")
+            return None
+
+        def ctx(args):
+            a = args[0]
+            if a[0] == "v" and a[1] == "Some":
+                return T.V("Ok", *a[2])
+            if a[0] == "v" and a[1] == "None":
+                return T.V("Err", T.sym("context"))
+            return a
+        return {"checked_add": checked_add, "with_context": ctx, "context": ctx, "ok_or_else": ctx, "ok_or": ctx}
+
+    def outcome(b, args):
+        self_v = ("st", "Labels", {"code_length": ("i", CL)})
+        ev = T.Evaluator(calls=hooks(), inline=inline, max_inline=3)
+        try:
+            r = ev.run_fn(b, [self_v] + args)
+        except Exception as e:           # evaluator cannot follow the shape: visible, not silent
+            return "?" + type(e).__name__
+        if r[0] == "err" or (r[0] == "v" and r[1] == "Err"):
+            return "err"
+        if r[0] == "v" and r[1] == "if":
+            return "?symbolic"
+        return "ok"
+    classes = {}
+    for name, b in sorted(lab.items()):
+        if len(b["params"]) != 2 or (b.get("inputs") or [None, None])[1] != "u16":
             continue
-        guards = []
-        for n in H.walk(b["body"]):
-            if n.get("k") == "if" and H.diverges(n["then"]) and H.is_err_exit(n["then"]):
-                c = H.peel(n["cond"], refs=False)
-                if c.get("k") == "bin" and any(fn == "code_length" for _, fn in H.field_accesses(c)):
-                    l_is_cl = any(fn == "code_length" for _, fn in H.field_accesses(c["l"]))
-                    op = c["op"]
-                    if l_is_cl:
-                        op = {"<": ">", "<=": ">=", ">": "<", ">=": "<=", "==": "==", "!=": "!="}.get(op, op)
-                    guards.append(op)
-        R.inst("R01.12", "labels-check:%s" % name, guards == [op_reject], sp=b["sp"], expect="reject when pc %s code_length" % op_reject, got=guards)
+        if not any(H.is_call(x, "get_or_add_unchecked", "or_insert_with", "entry") for x in H.walk(b["body"])) and name not in ("create",):
+            # only label-creating methods are classified (get / try_get look up existing labels)
+            continue
+        pat = [outcome(b, [("i", CL + d)]) for d in (-1, 0, 1)]
+        cls = {("ok", "err", "err"): "instruction", ("ok", "ok", "err"): "exclusive-end", ("ok", "ok", "ok"): "unchecked"}.get(tuple(pat), "other")
+        classes[b["key"]] = (name, cls)
+        if cls == "unchecked" and not (b.get("vis") or "").startswith("Public") and "pub" not in (b.get("vis") or "").lower():
+            pass
+        R.inst("R01.12", "labels-method:%s" % name, cls in ("instruction", "exclusive-end") or name == "get_or_add_unchecked", sp=b["sp"],
+               got={"pc=len-1": pat[0], "pc=len": pat[1], "pc=len+1": pat[2]}, nontrivial=cls != "unchecked",
+               expect="Err exactly for pc >= code_length (instruction offsets) or exactly for pc > code_length (exclusive ends)")
+    kinds = sorted(set(c for _, c in classes.values()))
+    R.inst("R01.12", "labels:both-kinds-exist", "instruction" in kinds and "exclusive-end" in kinds, got=kinds)
     gr = lab.get("get_or_create_range")
-    if R.anchor("R01.12", "fn Labels::get_or_create_range", gr):
-        lits = [n for n in H.walk(gr["body"]) if n.get("k") == "struct" and (n.get("adt") or "").endswith("LabelRange")]
-        ok = False
-        got = None
-        if len(lits) == 1:
-            f = {x["name"]: x["e"] for x in lits[0]["fields"]}
-            s_call = [H.callee_name(x) for x in H.walk(f.get("start", {})) if x.get("k") == "mcall" and (x.get("callee") or {}).get("path", "").startswith("duke::class_reader::labels")]
-            e_call = [H.callee_name(x) for x in H.walk(f.get("end", {})) if x.get("k") == "mcall" and (x.get("callee") or {}).get("path", "").startswith("duke::class_reader::labels")]
-            got = {"start": s_call, "end": e_call}
-            ok = s_call == ["get_or_create"] and e_call == ["get_or_create_check_exclusive"]
-        R.inst("R01.12", "range:start-inclusive-end-exclusive", ok, sp=gr["sp"], got=got,
-               expect={"start": ["get_or_create"], "end": ["get_or_create_check_exclusive"]})
+    if R.anchor("R01.12", "fn Labels::get_or_create_range", gr) and len(gr["params"]) == 3:
+        for (st, ln, want, why) in ((3, 7, "ok", "range ending exactly at code_length"), (CL, 0, "err", "range starting at code_length"),
+                                    (3, 8, "err", "range ending past code_length"), (0, 1, "ok", "first instruction"),
+                                    (0xffff, 1, "err", "start + length past 65535")):
+            got = outcome(gr, [("i", st), ("i", ln)])
+            R.inst("R01.12", "range:start=%d,length=%d" % (st, ln), got == want, sp=gr["sp"], expect=want, got=got, detail=why + " (code_length = 10)")
     rc = duke.fn("read_code")
     if R.anchor("R01.12", "fn read_code", rc):
         lits = [n for n in H.walk(rc["body"]) if n.get("k") == "struct" and (n.get("adt") or "").endswith("code::Exception")]
         if R.anchor("R01.12", "Exception literal in read_code", len(lits) == 1, sp=rc["sp"]):
-            want = {"start": "get_or_create", "end": "get_or_create_check_exclusive", "handler": "get_or_create"}
+            want = {"start": "instruction", "end": "exclusive-end", "handler": "instruction"}
+            srcs = {}
             for fld in lits[0]["fields"]:
-                if fld["name"] not in want:
-                    continue
-                calls = [H.callee_name(x) for x in H.walk(fld["e"]) if x.get("k") == "mcall" and (x.get("callee") or {}).get("path", "").startswith("duke::class_reader::labels")]
-                R.inst("R01.12", "exception_table.%s" % fld["name"], calls == [want[fld["name"]]], sp=fld["e"]["sp"], expect=want[fld["name"]], got=calls,
+                e = fld["e"]
+                l = H.local_of(e)
+                if l:           # `let end = labels.…(..)?;` before the literal
+                    init = H.let_init_of(rc["body"], l[0])
+                    e = init if init is not None else e
+                srcs[fld["name"]] = e
+            for name, cls in want.items():
+                e = srcs.get(name)
+                calls = [classes.get((x.get("callee") or {}).get("key")) for x in (H.walk(e) if e else []) if x.get("k") == "mcall"
+                         and (x.get("callee") or {}).get("key") in classes]
+                got = [c[1] for c in calls if c]
+                R.inst("R01.12", "exception_table.%s" % name, got == [cls], sp=(e or lits[0])["sp"], expect=cls, got=got,
                        detail="JVMS 4.7.3: start_pc and handler_pc are instruction offsets, end_pc is exclusive and may equal code_length")
-    R.floor("R01.12", 7)
+    R.floor("R01.12", 11)
 
 
 # ------------------------------------------------------------------------------------ R01.9
